@@ -232,6 +232,10 @@ class Crate:
             # several fns may share a path (e.g. closures are inlined; cfg'd duplicates): keep list
             self.fns.setdefault(f["path"], []).append(f)
         self.raw_fns = self.fns
+        from . import tree as _tree
+        for p_, fl in self.fns.items():
+            if fl[0].get("kind") in ("Const", "AssocConst") and not self.is_test:
+                _tree.CONSTS[p_] = fl[0]["body"]
         if not self.is_test and self.name in ("patronus", "patronus_dse", "patronus_egraphs"):
             self.fns = PreparedFns(self.raw_fns, self)
         self.adts = {a["path"]: a for a in doc["adts"]}
